@@ -23,6 +23,21 @@ macro_rules! notation {
 		}
 		vec
 	}};
+	// a vector whose elements take up `slots()` indices each: read until exactly `$l` indices are used up
+	(read, $r:ident, $p:ident, Vec<$it:tt> slots {$l:expr}) => {{
+		let slots = $l as usize;
+		let mut used = 0;
+		let mut vec = Vec::with_capacity(slots);
+		while used < slots {
+			let i = notation!(read, $r, $p, $it);
+			used += i.slots();
+			vec.push(i);
+		}
+		if used != slots {
+			return Err(std::io::Error::other(format!("expected entries taking up {} slots, got {}", slots, used)));
+		}
+		vec
+	}};
 	(read, $r:ident, $_p:ident, u8) => {{
 		let mut buf = [0u8; 1];
 		$r.read_exact(&mut buf)?;
@@ -70,7 +85,7 @@ macro_rules! notation {
 			$( const $c_0:ident: $ct_0:ident = $cv_0:expr, )*
 			$(
 				$( #[$id:meta] )?
-				mut $i:ident: $it:ident $( <$iit:tt> $([$iat:tt])? $({$l:expr})? )? $( ;$ps:expr )?,
+				mut $i:ident: $it:ident $( <$iit:tt> $([$iat:tt])? $({$l:expr})? $(slots {$sl:expr})? )? $( ;$ps:expr )?,
 				$( const $c_1:ident: $ct_1:ident = $cv_1:expr, )*
 			)*
 		}
@@ -99,7 +114,7 @@ macro_rules! notation {
 			fn _read(reader: &mut impl std::io::Read, pool: Option<&Vec<CpInfo>>) -> std::io::Result<$n> {
 				$( let $c_0 = notation!(read, reader, pool, $ct_0); notation!(check, $c_0, $cv_0); )*
 				$(
-					let $i = notation!(read, reader, pool, $it $( <$iit> $([$iat])? $({$l})? )?);
+					let $i = notation!(read, reader, pool, $it $( <$iit> $([$iat])? $({$l})? $(slots {$sl})? )?);
 					$( let pool = $ps; )?
 					$( let $c_1 = notation!(read, reader, pool, $ct_1); notation!(check, $c_1, $cv_1); )*
 				)*
